@@ -1594,11 +1594,21 @@ func (fv *FV) ghostBuiltin(e *Env, x *ast.CallExpr, fn *types.Func) Value {
 			}
 		}
 		fv.specErr("defined() takes a local variable")
+	case "gh_argc":
+		// argc(): the number of arguments (receiver excluded) of the call a precall clause guards
+		if fv.spec == nil || fv.spec.callArgs == nil {
+			fv.specErr("argc: only in precall clauses")
+			break
+		}
+		return Value{K: kScalar, T: intLit(int64(len(fv.spec.callArgs)))}
 	case "gh_argIs":
 		// argIs(i, v): the i-th argument (0-based) of the call a precall clause guards is v
 		iv := fv.expr(e, x.Args[0])
 		n, err := strconv.Atoi(iv.T.S)
-		if err != nil || fv.spec == nil || fv.spec.callArgs == nil || n < 0 || n >= len(fv.spec.callArgs) {
+		if err == nil && fv.spec != nil && fv.spec.callArgs != nil && n >= len(fv.spec.callArgs) {
+			return Value{K: kScalar, T: tFalse} // the guarded call has no such argument
+		}
+		if err != nil || fv.spec == nil || fv.spec.callArgs == nil || n < 0 {
 			fv.specErr("argIs: needs a literal index of an argument of the guarded call")
 			break
 		}
@@ -1607,7 +1617,11 @@ func (fv *FV) ghostBuiltin(e *Env, x *ast.CallExpr, fn *types.Func) Value {
 		// argAs[T](i): the i-th argument (0-based; receiver excluded) of the call a precall clause guards
 		iv := fv.expr(e, x.Args[0])
 		n, err := strconv.Atoi(iv.T.S)
-		if err != nil || fv.spec == nil || fv.spec.callArgs == nil || n < 0 || n >= len(fv.spec.callArgs) {
+		if err == nil && fv.spec != nil && fv.spec.callArgs != nil && n >= len(fv.spec.callArgs) {
+			// the guarded call has fewer arguments than the clause expects: an unconstrained value (the obligation fails unless it is trivial)
+			return fv.freshValue(rt, "noarg")
+		}
+		if err != nil || fv.spec == nil || fv.spec.callArgs == nil || n < 0 {
 			fv.specErr("argAs: needs a literal index of an argument of the guarded call")
 			break
 		}
